@@ -149,9 +149,21 @@ func cmdCheck(prop, tier string) int {
 	var funcsUnder []map[string]any
 	assumptions := map[string]bool{}
 	trusted := map[string]bool{}
+	// thorough tier: the transitive closure of the callees (functions of the repository that are called by contract) is
+	// verified in full as well - a clause of a property rests on every contract its functions use
+	listed := map[string]bool{}
 	for _, n := range cfg.Funcs {
+		listed[n] = true
+	}
+	work := append([]string(nil), cfg.Funcs...)
+	for wi := 0; wi < len(work); wi++ {
+		n := work[wi]
+		isCallee := wi >= len(cfg.Funcs)
 		fi := u.Funcs[n]
 		c := u.Specs.Contracts[n]
+		if isCallee && (fi == nil || c == nil || c.NoBody || c.Trusted || fi.Body == nil) {
+			continue
+		}
 		if fi == nil || c == nil {
 			fn := writeReplay(n+"#stale-contract", map[string]any{"property": prop, "obligation": n + "#stale-contract", "error": "function or contract not found (renamed or removed)"})
 			viols = append(viols, violation{Obligation: n + "#stale-contract", Replay: fn, NoInput: true})
@@ -165,7 +177,7 @@ func cmdCheck(prop, tier string) int {
 		}
 		cnt := 0
 		for _, o := range os_ {
-			if len(only) > 0 && !matchAny(only, o.Name) && o.Kind != "vacuity" {
+			if !isCallee && len(only) > 0 && !matchAny(only, o.Name) && o.Kind != "vacuity" {
 				continue
 			}
 			if matchAny(exclude, o.Name) {
@@ -174,12 +186,16 @@ func cmdCheck(prop, tier string) int {
 			obls = append(obls, o)
 			cnt++
 		}
-		funcsUnder = append(funcsUnder, map[string]any{"function": n, "file": fi.File, "mode": x.mode, "obligations": cnt,
+		funcsUnder = append(funcsUnder, map[string]any{"function": n, "file": fi.File, "mode": x.mode, "obligations": cnt, "included_as_callee": isCallee,
 			"statements_seen": x.stmtsSeen, "statements_lowered": x.stmtsLowered, "calls_dropped_by_rule": x.stmtsDropped})
 		for a := range x.assumptions {
 			assumptions[a] = true
 		}
 		for cal := range x.calleesUsed {
+			if tier == "thorough" && !listed[cal] {
+				listed[cal] = true
+				work = append(work, cal)
+			}
 			if cc := u.Specs.Contracts[cal]; cc != nil && (cc.NoBody || cc.Trusted) {
 				trusted["assumed contract: "+cal] = true
 			} else {
